@@ -5,5 +5,6 @@ pub mod classical;
 pub mod defs;
 pub mod expr;
 pub mod ident;
+pub mod instr;
 pub mod rf;
 pub mod rfprog;
